@@ -125,6 +125,16 @@ class TcpConnection():
 
     def _set_selector_events_mask(self, mode: Literal["r", "w", "rw"], msg: Any = None) -> None:
         self.lock.acquire()
+        try:
+            self.__set_selector_events_mask(mode, msg)
+        except (KeyError, ValueError, OSError):
+            tcp_connection.debug(f"[Socket-{self.sock_id}] There is no "\
+                                 f"such Selector registered")
+        finally:
+            self.lock.release()
+
+
+    def __set_selector_events_mask(self, mode: Literal["r", "w", "rw"], msg: Any = None) -> None:
         if msg:
             self._out_pending += msg
 
@@ -162,7 +172,6 @@ class TcpConnection():
         else:
             tcp_connection.debug(f"[Socket-{self.sock_id}] Updating "\
                                  f"selector events mask: Invalid entry")
-        self.lock.release()
 
 
     def _write(self) -> None:
